@@ -228,6 +228,9 @@ for n, c, out in (
 ):
     if c is not None:
         fn(n, {"self": ("L", "p22")}, c, out, kind="method")
+fn("cumprod", {"self": ("D", "pos")}, lambda m, a: m(), "D", kind="method")  # only a dimensionless array has a cumulative product
+fn("round", {"self": ("L", "v1")}, lambda m, a: m(), "first", kind="method", covariant=False)
+fn("ptp", {"self": ("L", "v1")}, lambda m, a: m(), "L", kind="method")
 fn("clip", {"self": ("L", "v1"), "lo": ("L", "s2"), "hi": ("L", "s")}, lambda m, a: m(a["lo"], a["hi"]), "L", kind="method")
 fn("searchsorted", {"self": ("L", "csorted"), "v": ("L", "c3")}, lambda m, a: m(a["v"]), "bare", kind="method")
 fn("dot", {"self": ("L", "v1"), "b": ("T", "v2")}, lambda m, a: m(a["b"]), "L*T", kind="method")
